@@ -138,6 +138,7 @@ func buildStarts() {
 			st.SetBalance(addrs[1], big.NewInt(9))
 			st.SetData(addrs[2], skeys[1], svals[1])
 			st.SetFT(addrs[1], ftName, big.NewInt(4))
+			st.SetState(addrs[1], sskey, common.BigToHash(big.NewInt(1)))
 		}
 		root, err := st.Commit(false)
 		if err != nil {
@@ -222,6 +223,13 @@ func (u *subject) apply(c call) (r result) {
 		s.SetBalance(addrs[c.A], big.NewInt(int64(c.X)))
 	case "SS":
 		s.SetState(addrs[c.A], sskey, common.BigToHash(big.NewInt(int64(c.X))))
+	case "GC": // a query made on the live object inside the history
+		s.GetCommittedState(addrs[c.A], sskey)
+	case "LS": // X successful inner frames: each takes a snapshot and writes, none is reverted
+		for i := 0; i < c.X; i++ {
+			s.Snapshot()
+			s.IncreaseNonce(addrs[c.A])
+		}
 	case "TR":
 		s.Transfer(addrs[c.A], addrs[c.Y], big.NewInt(int64(c.X)))
 	case "AF":
